@@ -52,6 +52,20 @@ def send_msg_envelope(inner, rq_sa=0x81, rs_sa=0x20, seq=0, cc=0):
     return rsp_frame(rq_sa, 7, 0, rs_sa, seq, 0, 0x34, bytes([cc]) + bytes(inner))
 
 
+def damage_cancelling(frame, d, where=-1):
+    """`frame` with TWO damaged bytes whose errors cancel modulo 256: the header checksum (byte 2) +d and byte
+    `where` of the payload part (offset >= 3, or negative from the end; -1 = the payload checksum) -d.  Neither
+    checksum verifies (IPMI v1.5 7.3: chk1 covers bytes 0..1, chk2 bytes 3..end), the message as a whole still
+    adds up to zero."""
+    f = bytearray(frame)
+    d %= 256
+    assert d != 0 and (where >= 3 or where < 0) and len(f) >= 7
+    f[2] = (f[2] + d) % 256
+    f[where] = (f[where] - d) % 256
+    assert sum(f[0:3]) % 256 != 0 and sum(f[3:]) % 256 != 0 and sum(f) % 256 == sum(bytearray(frame)) % 256
+    return bytes(f)
+
+
 def rmcp_wrap(frame, len_delta=0, version=6):
     """RMCP header (ASF 2.0 §3.2.2) + IPMI v1.5 session header with authentication type
     none (§6.11.7), session sequence and id zero."""
